@@ -1110,26 +1110,26 @@ def correspond(ctx):
     batch_no = 0
     while done < n and len(fails) < 6:
         tab = Interner()
-        load_cases, ike_cases, meta = [], [], []
+        load_cases, meta = [], []
         for i in range(done, min(n, done + BATCH)):
             listen, d, desc = gen.case()
             res, draws = run_real(ctx.rng, listen, d)
             envl = resolve_env(d)
             addrs = [c_addr(ip_address(a)) for a in listen]
             tab.add_env(envl)
-            load_cases.append((tab.walk([addrs, draws, enc_in(d)]), tab.walk(res_code(res))))
+            # the first connection through _load_ike_conf alone: the exception class before __init__ maps it
+            raw = None
+            if isinstance(d, dict) and d:
+                name, cd = next(iter(d.items()))
+                r2, _ = run_real(ctx.rng, listen, d, only_ike=(name, cd))
+                raw = [0] if r2[0] == 'ok' else [1, EXC_CODES.get(r2[1], 99)]
+                ctx.count('first-connection-raw:' + ('ok' if r2[0] == 'ok' else r2[1]))
+            load_cases.append((tab.walk([addrs, draws, enc_in(d)]), [tab.walk(res_code(res)), raw]))
             meta.append((listen, d, desc, res))
             ok = res[0] == 'ok'
             ctx.case(describe(listen, d, desc), nontrivial=True, sample=(i < 4))
             ctx.count('load:' + (('ok:%d-connections' % len(res[1])) if ok else res[1]))
             ctx.count('grammar:' + desc.split(':')[0])
-            # the first connection through _load_ike_conf alone: the exception class before __init__ maps it
-            if isinstance(d, dict) and i % 4 == 0:
-                for name, cd in list(d.items())[:1]:
-                    r2, dr2 = run_real(ctx.rng, listen, d, only_ike=(name, cd))
-                    ike_cases.append((tab.walk([addrs, dr2, enc_in(name), enc_in(cd)]), tab.walk(res_code(r2))))
-                    ctx.case({'ike_conf': describe(listen, cd, desc)}, nontrivial=True)
-                    ctx.count('ike_conf:' + ('ok' if r2[0] == 'ok' else r2[1]))
         done += BATCH
         req = tab.requires()
         bad = core.run_cases(ctx, CLUSTER, req, 'run_load strtab genv', load_cases, shard=150, name=f'load{batch_no}')
@@ -1137,12 +1137,8 @@ def correspond(ctx):
             listen, d, desc, res = meta[gi]
             fails.append(Failure('correspondence', 'config:load',
                                  f'Configuration({listen}, {describe(listen, d, desc)["dict"][:600]}) = {str(res)[:300]} '
-                                 f'but the model says {out[-300:]}', {'kind': 'config', 'listen': listen, 'dict': repr(d)}))
-        bad = core.run_cases(ctx, CLUSTER, req, 'run_ike_conf strtab genv', ike_cases, shard=150, name=f'ike{batch_no}')
-        for gi, out in bad[:6]:
-            fails.append(Failure('correspondence', 'config:load_ike_conf',
-                                 f'_load_ike_conf -> {str(ike_cases[gi][1])[:300]} but the model says {out[-300:]}',
-                                 {'kind': 'model-only', 'case': repr(ike_cases[gi][0])[:3000]}))
+                                 f'(then the raw result of its first connection) but the model says {out[-300:]}',
+                                 {'kind': 'config', 'listen': listen, 'dict': repr(d)}))
         batch_no += 1
     # int(text): the ASCII grammar the model implements itself
     tab = Interner()
@@ -1336,8 +1332,8 @@ CHECK = core.Check(
     rule='dictionaries from a grammar of the documented keys at the three levels (connection, auth, protect entry): '
          'valid by construction (random omissions, every algorithm name, IPv4/IPv6, identities of the four types, PEM '
          'keys), then 0-3 positions replaced by an ill-typed / out-of-range value (None, bool, int, str, list, dict), '
-         'deleted or wrapped; 1% non-dictionary top levels; each through the real Configuration() and, for the first '
-         'connection of every fourth dictionary, through _load_ike_conf alone (raw exception class); plus int() texts. '
+         'deleted or wrapped; 1% non-dictionary top levels; each through the real Configuration() and its first '
+         'connection also through _load_ike_conf alone (exception class before __init__ maps it); plus int() texts. '
          'Every case is non-trivial (it exercises the loader); distinct by content hash',
     trusted_base=['Coq 8.16.1 kernel (coqc, vm_compute; no native_compute)',
                   'py/props/c19.py translator (tables, defaults, transform order, AH rule, except clauses -> '
